@@ -720,9 +720,10 @@ func runRateLimitDirect(k *mon.Case) {
 // network tier
 
 const (
-	netExp     = 4 // seconds
-	netTimeout = 300 * time.Millisecond
-	rlLimit    = 5
+	maxAttempts = 4 // 1 + messageMaxRetries
+	netExp      = 4 // seconds
+	netTimeout  = 300 * time.Millisecond
+	rlLimit     = 5
 )
 
 type netScenario struct {
@@ -738,7 +739,8 @@ type netScenario struct {
 	gwg      sync.WaitGroup
 	rlPen    int
 	interval time.Duration
-	okCalls  int // "ok" requests issued O -> V (each at most one message)
+	okCalls  int // "ok" request messages sent O -> V
+	okSeq    int
 }
 
 func (ns *netScenario) log(f string, a ...any) {
@@ -836,7 +838,7 @@ func (ns *netScenario) raw(from, to *p2pnet.Node, response bool, wire []byte) er
 func (ns *netScenario) request(from, to *p2pnet.Node, proc string, data []byte) (string, error) {
 	var resp p2p.Response
 	if from == ns.O && to == ns.V && proc == "ok" {
-		ns.okCalls++
+		ns.okCalls += maxAttempts // upper bound on the messages this call can have sent
 	}
 	ns.k.Watch("RequestFrom", watchdog, func() {
 		ctx, cancel := context.WithTimeout(context.Background(), netTimeout*2/3)
@@ -844,6 +846,16 @@ func (ns *netScenario) request(from, to *p2pnet.Node, proc string, data []byte) 
 		resp = from.Conn.RequestFrom(ctx, to.ID(), proc, data)
 	})
 	return string(resp.Data()), resp.Error()
+}
+
+// sendOK sends exactly one well-formed "ok" request message from the offender to the victim on a
+// raw stream (RequestFrom may retry and so send several).  The victim's reply reaches the
+// offender as a response to an unknown request ID, which is only logged there.
+func (ns *netScenario) sendOK() error {
+	ns.okCalls++
+	ns.okSeq++
+	id := fmt.Sprintf("00000000-0000-4000-8000-%012d", ns.okSeq)
+	return ns.raw(ns.O, ns.V, false, p2p.VerifEncodeRequest(id, "ok", []byte("hello")))
 }
 
 // settled waits until the victim has handled every "ok" request the offender has sent so far.
@@ -854,6 +866,24 @@ func (ns *netScenario) settled(d time.Duration) bool {
 func (ns *netScenario) bannedAtV(ip string) bool {
 	for _, b := range ns.V.Conn.VerifPeer().VerifGater().ListBanned() {
 		if b.String() == ip {
+			return true
+		}
+	}
+	return false
+}
+
+func (ns *netScenario) remoteAddrsAtV() []string {
+	var out []string
+	for _, c := range ns.V.Conn.ConnsToPeer(ns.O.ID()) {
+		out = append(out, c.RemoteMultiaddr().String())
+	}
+	return out
+}
+
+// vSeesOfrom: some connection V has to O comes from the given IP.
+func (ns *netScenario) vSeesOfrom(ip string) bool {
+	for _, a := range ns.remoteAddrsAtV() {
+		if strings.HasPrefix(a, "/ip4/"+ip+"/") {
 			return true
 		}
 	}
@@ -931,10 +961,11 @@ func runNetBan(k *mon.Case) {
 		nLegal = 0
 	}
 	for i := 0; i < nLegal; i++ {
-		if d, err := ns.request(ns.O, ns.V, "ok", []byte("hello")); err != nil || d != "ok" {
+		if err := ns.sendOK(); err != nil {
 			k.Count("legal_request_failed_not_judged", 1)
 		}
 	}
+	ns.settled(5 * time.Second)
 	if _, _, has := g.Score(offIP); has {
 		k.Violation("legal-traffic-penalised:requests-within-limit", "well-formed requests within the rate limit left a score for the sender", ns.wit(map[string]any{"requests": nLegal, "limit": rlLimit}))
 		return
@@ -966,12 +997,13 @@ func runNetBan(k *mon.Case) {
 			need = 2 * (rlLimit + 1)
 		}
 		for ns.served.Load() < int64(need) && ns.okCalls < 4*need && !ns.bannedAtV(offIP) {
-			_, e := ns.request(ns.O, ns.V, "ok", []byte("hello"))
+			e := ns.sendOK()
+			waitUntil(2*time.Second, func() bool { return ns.served.Load() >= int64(ns.okCalls) || ns.bannedAtV(offIP) })
 			if ns.bannedAtV(offIP) {
 				break // from here on the score may be swept at any time
 			}
-			// each handled message passed the limiter before its handler ran, and each call sent at
-			// most one message:  floor(handled/(limit+1)) <= score/penalty <= floor(calls/(limit+1))
+			// each handled message passed the limiter before its handler ran, and each raw send is one
+			// message:  floor(handled/(limit+1)) <= score/penalty <= floor(sent/(limit+1))
 			handled := int(ns.served.Load())
 			got, _, _ := g.Score(offIP)
 			lo, hi := ns.rlPen*(handled/(rlLimit+1)), ns.rlPen*(ns.okCalls/(rlLimit+1))
@@ -1001,10 +1033,11 @@ func runNetBan(k *mon.Case) {
 			k.Violation("sub-threshold-penalty-banned-or-disconnected", "a penalty below 100 banned or disconnected the peer", ns.wit(map[string]any{"penalty": a}))
 			return
 		}
-		if d, err := ns.request(ns.O, ns.V, "ok", []byte("hello")); err != nil || d != "ok" {
+		banBefore = unix()
+		if err := ns.sendOK(); err != nil { // nLegal+1 <= limit messages in total
 			k.Count("legal_request_failed_not_judged", 1)
 		}
-		banBefore = unix()
+		ns.settled(5 * time.Second)
 		ns.V.Conn.ApplyPenalty(ns.O.ID(), p2p.MaxPenaltyScore-a)
 	case "ban-peer-api":
 		ns.V.Conn.BanPeer(ns.O.ID())
@@ -1083,11 +1116,20 @@ func runNetBan(k *mon.Case) {
 			up := e == nil && !waitUntil(300*time.Millisecond, func() bool { return !ns.V.Connected(ns.O) })
 			after := unix()
 			ns.log("reconnect %s -> err=%v, connection up at V: %v", dir, e, up)
+			// bans are per IP: when the listening port's 4-tuple is still in TIME_WAIT libp2p dials
+			// from an ephemeral port and the kernel picks another loopback source address
+			if up && !ns.vSeesOfrom(offIP) {
+				k.Count("reconnected_from_another_source_ip_not_judged", 1)
+				ns.log("the new connection reaches V from %v, not from the banned IP", ns.remoteAddrsAtV())
+				_ = ns.V.Conn.Disconnect(ns.O.ID())
+				waitUntil(5*time.Second, func() bool { return !ns.V.Connected(ns.O) && !ns.O.Connected(ns.V) })
+				continue
+			}
 			if after <= banBefore+netExp {
 				k.Count("reconnect_attempts_within_guaranteed_window", 1)
 				if up {
 					k.Violation("banned-peer-reconnected-before-expiry:"+dir, "a connection with a banned IP was established before the ban can have expired",
-						ns.wit(map[string]any{"ban_before_unix": banBefore, "attempt_after_unix": after}))
+						ns.wit(map[string]any{"ban_before_unix": banBefore, "attempt_after_unix": after, "victim_sees_offender_as": ns.remoteAddrsAtV()}))
 					return
 				}
 			} else {
@@ -1171,8 +1213,10 @@ func runNetLegal(k *mon.Case) {
 			k.Inconclusive("earlier-requests-never-handled")
 			return
 		}
-		if !waitUntil(10*time.Second, func() bool { c, _ := mp.VerifRateCounter("ok", ns.O.ID()); return c == 0 }) {
-			k.Inconclusive("rate-counter-never-reset")
+		if !waitUntil(50*ns.interval, func() bool { c, _ := mp.VerifRateCounter("ok", ns.O.ID()); return c == 0 }) {
+			c, _ := mp.VerifRateCounter("ok", ns.O.ID())
+			k.Violation("rate-limit-counters-never-reset", "the per-interval message counter was not reset within 50 intervals, so legal traffic of later intervals is counted against the limit",
+				ns.wit(map[string]any{"counter": c, "interval_ms": ns.interval.Milliseconds(), "limit": rlLimit}))
 			return
 		}
 		n := rlLimit
@@ -1181,7 +1225,7 @@ func runNetLegal(k *mon.Case) {
 		}
 		maxSeen := 0
 		for i := 0; i < n; i++ {
-			_, _ = ns.request(ns.O, ns.V, "ok", []byte("hello"))
+			_ = ns.sendOK()
 			if c, _ := mp.VerifRateCounter("ok", ns.O.ID()); c > maxSeen {
 				maxSeen = c
 			}
@@ -1247,6 +1291,13 @@ func runNetBlacklist(k *mon.Case) {
 			up := e == nil && !waitUntil(300*time.Millisecond, func() bool { return !ns.V.Connected(ns.O) })
 			ns.log("blacklisted %s -> err=%v up=%v", dir, e, up)
 			k.Count("blacklist_connect_attempts", 1)
+			if up && !ns.vSeesOfrom("127.0.0.3") {
+				k.Count("reconnected_from_another_source_ip_not_judged", 1)
+				ns.log("the connection reaches V from %v, not from the blacklisted IP", ns.remoteAddrsAtV())
+				_ = ns.V.Conn.Disconnect(ns.O.ID())
+				waitUntil(5*time.Second, func() bool { return !ns.V.Connected(ns.O) && !ns.O.Connected(ns.V) })
+				continue
+			}
 			if up {
 				k.Violation("blacklisted-ip-connected:"+dir, "a connection with a permanently blacklisted IP was established", ns.wit(nil))
 				return
@@ -1281,7 +1332,7 @@ func main() {
 		RacePkgs: []string{"p2p"},
 	}, func(c *mon.Ctx) {
 		const batch = 25
-		c.Cases("gater", c.N(64, 3200), func(k *mon.Case) {
+		c.Cases("gater", c.N(64, 2400), func(k *mon.Case) {
 			// one case = a batch of independent sequences, each on its own gater, run side by side
 			// (they spend most of their time waiting for expiry)
 			var wg sync.WaitGroup
@@ -1304,7 +1355,7 @@ func main() {
 			k.Watch("gater batch", 5*time.Minute, wg.Wait)
 			k.Eval(batch - 1)
 		})
-		c.Cases("gater-concurrent", c.N(64, 3200), func(k *mon.Case) {
+		c.Cases("gater-concurrent", c.N(64, 2400), func(k *mon.Case) {
 			for i := 0; i < 8; i++ {
 				sk := *k
 				sk.R = c.RNG(fmt.Sprintf("gater-conc-sub-%d", i), k.Index)
@@ -1315,6 +1366,6 @@ func main() {
 		c.Cases("ratelimit-direct", c.N(32, 1600), runRateLimitDirect)
 		c.Cases("net-legal", c.N(8, 200), runNetLegal)
 		c.Cases("net-blacklist", c.N(4, 100), runNetBlacklist)
-		c.Cases("net-ban", c.N(33, 1100), runNetBan)
+		c.Cases("net-ban", c.N(33, 660), runNetBan)
 	})
 }
